@@ -598,4 +598,44 @@ def getClient {β} (c : Codec β) (t : Table β) (id : Bytes) : Except Err PyVal
 
 def idCodec : Codec MVal := ⟨id, some⟩
 
+/-! ## checkpoint directory (`fedjax/training/checkpoint.py`)
+
+The directory is the finite map round ↦ state of the files `checkpoint_<round:08d>`, kept as the
+listing `_get_checkpoint_paths` returns: ascending by round number. `save_state`/`load_state`
+(pickle through a staging file + rename) are the trusted codec: a file holds the state last written
+to it. Rounds are below `10^8` (the 8-digit file-name pattern); the handler rejects others. -/
+
+abbrev Dir (σ : Type) := List (Nat × σ)
+
+/-- `save_state(state, checkpoint_<r>)`: create or overwrite the file of round `r` -/
+def dirInsert {σ} (r : Nat) (s : σ) : Dir σ → Dir σ
+  | [] => [(r, s)]
+  | (r', s') :: rest =>
+    if r < r' then (r, s) :: (r', s') :: rest
+    else if r = r' then (r, s) :: rest
+    else (r', s') :: dirInsert r s rest
+
+/-- `save_checkpoint(root, s, r, keep)`: write, then remove `_get_checkpoint_paths(...)[:-keep]`
+(Python: `[:-0]` is empty, so `keep = 0` removes nothing). -/
+def saveCkpt {σ} (keep : Nat) (d : Dir σ) (r : Nat) (s : σ) : Dir σ :=
+  let d' := dirInsert r s d
+  if keep = 0 then d' else d'.drop (d'.length - keep)
+
+/-- `load_latest_checkpoint(root)`: last path of the sorted listing -/
+def loadLatest {σ} (d : Dir σ) : Option (σ × Nat) :=
+  match d.getLast? with
+  | some (r, s) => some (s, r)
+  | none => none
+
+/-- `load_state(checkpoint_<r>)` -/
+def loadRound {σ} (d : Dir σ) (r : Nat) : Option σ := (d.find? (fun p => p.1 == r)).map (·.2)
+
+/-- a history of `save_checkpoint` calls into an empty directory -/
+def runHist {σ} (keep : Nat) (h : List (Nat × σ)) : Dir σ :=
+  h.foldl (fun d p => saveCkpt keep d p.1 p.2) []
+
+/-- the state most recently saved under round `r` in the history -/
+def lastSaved {σ} (h : List (Nat × σ)) (r : Nat) : Option σ :=
+  (h.reverse.find? (fun p => p.1 == r)).map (·.2)
+
 end FedjaxVerif.Serialize
